@@ -211,8 +211,19 @@ func main() {
 
 	// ---- generated inputs x schedules ----
 	total := o.Count(800, 12000)
+	var must []iox.Variant // variants every quick run has to contain
+	for _, v := range e.variants {
+		if v.OwnProlog {
+			for k := 0; k < 6; k++ {
+				must = append(must, v)
+			}
+		}
+	}
 	for c := 0; c < total && !e.hung; c++ {
 		v := e.variants[r.Pick(len(e.variants))]
+		if c < len(must) {
+			v = must[c]
+		}
 		for v.Fixed && len(v.Gen(r, 0)) > 8000 { // the 29 KB EDI sample is too heavy for 17 schedules in the quick tier
 			v = e.variants[r.Pick(len(e.variants))]
 		}
